@@ -48,6 +48,8 @@ def locate_one(values, val, issorted=False, tol=None, side='left'):
         try:
             if values.dtype.kind == 'u':
                 values = values.astype(float) # unsigned differences wrap around
+            elif values.dtype.kind == 'i' and values.dtype.itemsize < 8:
+                values = values.astype(np.int64) # so do differences of narrow integers (and a key beyond their range is refused by numpy)
             dist = np.abs(values - val)
             match = np.argmin(dist)
         except TypeError as error:
